@@ -61,6 +61,20 @@ theorem detach_output (maxHeader : Nat) (src p : Bytes) (hd : V2Header)
     detachCmd maxHeader src = .ok (src.drop hd.indexOffset) := by
   unfold detachCmd; rw [h]; simp [hi]
 
+/-- (4) **`car verify` accepts what `car index` emits** whenever the roots are among the blocks: for
+    every valid payload (blocks hash to their CIDs), either codec, the layout of (1) passes every rule
+    of `VerifyCar` — header consistency, the hash-verifying scan, roots present, and an index lookup
+    that must succeed for every non-identity block. Composition of C01/C02 (the layout reads back as
+    the blocks), C11 (`Load` is well formed, so the index reads back; lookups after `Load` are exact). -/
+theorem verify_accepts_index_output (H : HashFn) (o : ReadOpts) (codec : Nat) (roots : List Cid) (bs : List Block) (ix : Index)
+    (hne : roots.isEmpty = false) (hin : (roots.all fun r => bs.any fun b => b.cid == r) = true)
+    (ok : PayloadOK H o (some roots) bs) (h10 : 10 ≤ o.maxHeader)
+    (lok : LayoutOK 0 0 (payload (some roots) bs).length)
+    (hix : Index.load codec (withOffsets (headerSize ⟨some roots, 1⟩) bs) = some ix)
+    (hrec : RecordsOK (withOffsets (headerSize ⟨some roots, 1⟩) bs)) :
+    verifyCar H o (layoutV2 0 0 (payload (some roots) bs) true false ix.bytes) = .ok () :=
+  verify_accepts_indexed H o codec roots bs ix hne hin ok h10 lok hix hrec
+
 /-- Non-vacuity: a one-block list is walkable. -/
 example : Walkable [⟨⟨1, 0x55, 0, [1, 2]⟩, [1, 2]⟩] := by
   intro b hb
